@@ -52,27 +52,32 @@ Section Dens.
     | [] => nzero
     | h :: t => fold_left kmax t h
     end.
-  Definition dens_Hs (nonpad : option (list Z)) (el : Z) : K :=
+  Definition dens_Hs_of (mx : K) (nonpad : option (list Z)) (el : Z) : K :=
     match nonpad with
     | None => rowsum el
-    | Some l => if zmem el l then rowsum el else max_rowsum
+    | Some l => if zmem el l then rowsum el else mx
     end.
+  Definition dens_Hs (nonpad : option (list Z)) (el : Z) : K := dens_Hs_of max_rowsum nonpad el.
 
   (* (H x)_el *)
   Definition dens_Hx (x : list K) (el : Z) : K :=
     nsum (map (fun cv => nmul (snd cv) (zget x (fst cv))) (h_row el)).
 
-  (* _response: H * x / Hs *)
+  (* _response: H * x / Hs      (max(Hs) is computed once) *)
   Definition dens_response (nonpad : option (list Z)) (x : list K) : list K :=
-    map (fun el => ndiv (dens_Hx x el) (dens_Hs nonpad el)) (zrange (nel g)).
+    let mx := max_rowsum in
+    map (fun el => ndiv (dens_Hx x el) (dens_Hs_of mx nonpad el)) (zrange (nel g)).
   (* _sensitivity: H * (dfdy / Hs)   (H itself, not its transpose: the cone matrix is symmetric) *)
   Definition dens_sensitivity (nonpad : option (list Z)) (dfdy : list K) : list K :=
-    let s := map (fun el => ndiv (zget dfdy el) (dens_Hs nonpad el)) (zrange (nel g)) in
+    let mx := max_rowsum in
+    let s := map (fun el => ndiv (zget dfdy el) (dens_Hs_of mx nonpad el)) (zrange (nel g)) in
     map (fun el => dens_Hx s el) (zrange (nel g)).
 
   (* triple list of S^-1 H (for the adjointness property) *)
   Definition dens_triples (nonpad : option (list Z)) : list (@triple K) :=
-    flat_map (fun el => map (fun cv => (Z.to_nat el, Z.to_nat (fst cv), ndiv (snd cv) (dens_Hs nonpad el))) (h_row el))
+    let mx := max_rowsum in
+    flat_map (fun el => let s := dens_Hs_of mx nonpad el in
+                        map (fun cv => (Z.to_nat el, Z.to_nat (fst cv), ndiv (snd cv) s)) (h_row el))
              (zrange (nel g)).
 
   (* specification side: the full cone matrix entry for ANY pair of elements, by their grid coordinates *)
